@@ -16,6 +16,9 @@ pub(crate) mod specdec;
 #[path = "/verif/harness/specenc.rs"]
 pub(crate) mod specenc;
 
+#[path = "/verif/harness/spechdr.rs"]
+pub(crate) mod spechdr;
+
 /// An obligation that could not be decided for a reason that is not a fault of
 /// the code under verification (model capacity exceeded etc.).  The runner
 /// classifies failures whose description starts with "UNDECIDED" as exit 2.
